@@ -95,13 +95,38 @@ THEOREMS = {
     "C15": dict(module="HH.Props.C15", trusted=MODEL_TRUST, theorems=[
         ("HH.C15.interleave_independent", "∀ interleavings of two op families over disjoint handle sets: a family's outputs = its isolated run's outputs"),
         ("HH.C15.outputs_depend_on_own_handles", "outputs of a history depend only on the handles it names"),
+        ("HH.C15.no_global_state", "regenerated source facts: no static, thread_local!/lazy_static!, Cell/Atomic/Mutex/Once type, no extern block anywhere in src/"),
+    ]),
+    "C16": dict(module="HH.Props.C16", trusted=["syn-based source-facts translator /verif/harness/facts (facts, not judgement; re-run on /repo/src in this run)", "rustc's forbid(unsafe_code) lint for the supporting compile check"], theorems=[
+        ("HH.C16.no_unsafe", "no `unsafe` token (incl. macro bodies) in lib/portable/internal/key/traits/macros/hash.rs, any cfg branch"),
+        ("HH.C16.no_lint_override", "lint attributes in those files are exactly allow(non_snake_case), warn(missing_docs), deny(unsafe_code)"),
+        ("HH.C16.lib_denies_unsafe", "lib.rs carries an unconditional #![deny(unsafe_code)]"),
+        ("HH.C16.no_unsafe_attr_or_extern", "no unsafe attribute, foreign block or raw-pointer construct in those files"),
+        ("HH.C16.module_closure", "the files PortableHash executes import only internal/key/traits/core items"),
+        ("HH.C16.macro_closure", "macros they invoke are the crate's own two + core assertion macros"),
+        ("HH.C16.no_path_redirect", "no #[path] redirection of the crate root's modules"),
+        ("HH.C16.table_nontrivial", "the regenerated table is non-empty and sees the unsafe code of builder.rs"),
+    ]),
+    "C17": dict(module="HH.Props.C17Facts", trusted=["source-facts translator", "Miri as interpreter of the big-endian / 32-bit targets"] + MODEL_TRUST, theorems=[
+        ("HH.C17.only_le_conversions", "every byte<->integer conversion on the portable path is from_le_bytes / to_le_bytes"),
+        ("HH.C17.no_target_sensitive", "no cfg(target_endian|target_pointer_width), usize::MAX/BITS, size_of::<usize>, isize, raw pointers"),
+        ("HH.C17.casts_inventory", "the integer casts of non-test portable code are the six listed (lengths <= 32, u32 count -> usize, 32-bit halves)"),
+        ("HH.C17.conv_nonvacuous", "the table does contain the conversions of the checkpoint codec"),
+    ]),
+    "C18": dict(module="HH.Props.C18Facts", trusted=["source-facts translator", "counting #[global_allocator] in the native runner"], theorems=[
+        ("HH.C18.no_alloc_names", "no allocation-capable name outside #[cfg(test)] anywhere in src/"),
+        ("HH.C18.no_extern_crate", "no extern crate (no alloc crate)"),
+        ("HH.C18.std_paths", "the only std paths are ::std::io::Write / ::std::io::Result of the adapter macro"),
+        ("HH.C18.std_gates", "feature=std gates only in lib.rs, macros.rs, builder.rs, x86/sse.rs, x86/avx.rs"),
     ]),
 }
 
 LEVEL = {k: "proof" for k in THEOREMS}
-EXPLAIN = {}
+LEVEL.update({"C16": "translation_validation", "C17": "translation_validation", "C18": "other"})
+EXPLAIN = {"C18": "A functional model has no heap, so the deciding evidence is (a) the kernel-checked theorems over the regenerated source facts (no allocation-capable name outside #[cfg(test)], no alloc crate, std used only for io::Write), (b) the allocation observable of the correspondence: a counting #[global_allocator] around every real operation (construction, appends 0 B..MiB, write, finish, clone, checkpoint, restore, Debug into a stack sink, finalize; std and no_std; all native back ends) must report 0, and (c) the no_std rlib references no allocator symbol."}
 ASSUME = {
     k: ["the Lean model corresponds to the code: established for this run by the differential correspondence stream (see coverage.traces_validated_against_impl / model_disagreements)",
         "rustc/LLVM compile the crate according to Rust semantics"] for k in ["C01", "C02", "C05", "C06", "C07", "C10", "C11", "C12", "C13", "C14", "C15"]
 }
 SPECIAL = {}
+PRE = {}
